@@ -8,9 +8,17 @@
    newSession, create, recover, commit; tied to the code by the KVL cases of Corr/C07Run.v) sends only
    such sequences, for every sequence of operations respecting the API discipline (theorem 4); and
    the two composed, quantified over version-layer operation sequences (theorems 5-6).
-   Property theorems only; each is closed by [exact lemma] and followed by Print Assumptions. *)
+   The other half - the janitor checkAndCleanFiles and the deletions that do not go through the loop
+   (recoverJournal, dropFrozenMem, revert / drop of failed flushes and compactions, Transaction.discard,
+   manifest rotation, removal deferred by the file cache) - is theorems 7-12 over the model Store/Sweep.v
+   (tied to the code by the KJan / KSel / KOpen cases of Corr/C07Run.v): the janitor is exact for every
+   listing, no step ever removes a needed file, a quiescent listing is the exact set plus the named residue,
+   and one Open makes it exact.
+   Property theorems only; each is closed by [exact lemma] (11 by a three-line projection) and followed by
+   Print Assumptions. *)
 From GL Require Import Conc.RefLoop Conc.RefLoopProofs Conc.VersionLayer Conc.VersionLayerProofs
   Gen.Consts Gen.InstRefLoop.
+From GL Require Store.Sweep Store.SweepProofs Store.SweepInv Store.SweepOpen Store.SweepFiles Store.Crash.
 From Coq Require Import NArith List Bool Permutation.
 Import ListNotations.
 Open Scope N_scope.
@@ -92,21 +100,173 @@ Theorem C07_files_complete_end_to_end : forall p o ops, vl_disciplined o ops = t
 Proof. exact files_complete_end_to_end. Qed.
 Print Assumptions C07_files_complete_end_to_end.
 
+(* ================= the janitor and the deletions that do not go through the loop =================
+   Model Store/Sweep.v (tied to the code by the KJan / KSel / KOpen cases of Corr/C07Run.v: every Open of the
+   harness' sweep part is replayed on it).  fd = (type, number); a listing is a list of fds without repetition. *)
+
+(* 7. checkAndCleanFiles, for EVERY listing the storage may return (stray files of any type and any number,
+      below, between, at or above the live numbers, also at or above the next file number):
+      - if a table of the version is not listed, the janitor reports exactly the missing ones and removes
+        nothing;
+      - otherwise its Remove calls are exactly the listed files outside jkeep, in listing order; whatever
+        Remove calls fail (bad), only files outside jkeep are ever passed to Remove (safety: never a table of
+        the version, never a journal numbered >= the live journal, never the current manifest), every kept
+        file stays, the loop stops at the first failing call, and if none fails the listing left is EXACTLY
+        the part of the old listing inside jkeep (completeness: every other file is gone);
+      - jkeep is: tables = the version's tables, whatever their number (also >= the next file number);
+        journals = number >= db.journalFd.Num (>= the frozen journal's, if there is one); manifests = the
+        current one only (after the repair: a manifest numbered above it was kept before); temporary files:
+        none. *)
+Theorem C07_sweep_exact : forall s l, NoDup l ->
+  match Sweep.janitor s l with
+  | Sweep.JMissing ts =>
+      ts <> [] /\ forall t, In t ts <-> In t (Sweep.js_tabs s) /\ ~ In (Sweep.FTable, t) l
+  | Sweep.JRemove rem =>
+      (forall t, In t (Sweep.js_tabs s) -> In (Sweep.FTable, t) l) /\
+      rem = filter (fun f => negb (Sweep.jkeep s f)) l /\
+      forall bad,
+        let '(calls, l', ok) := Sweep.rm_seq l rem bad in
+        (forall f, In f calls -> In f l /\ Sweep.jkeep s f = false) /\
+        (forall f, In f l -> Sweep.jkeep s f = true -> In f l') /\
+        (forall f, In f l' -> In f l) /\
+        (ok = true -> forall f, In f l' <-> In f l /\ Sweep.jkeep s f = true) /\
+        (ok = false -> exists pre f, calls = pre ++ [f] /\ In f bad)
+  end.
+Proof. exact SweepProofs.janitor_spec. Qed.
+Print Assumptions C07_sweep_exact.
+
+Theorem C07_sweep_keeps : forall s,
+  (forall t, Sweep.jkeep s (Sweep.FTable, t) = true <-> In t (Sweep.js_tabs s)) /\
+  (forall n, Sweep.jkeep s (Sweep.FJournal, n) = true <->
+             match Sweep.js_frozen s with Some z => z <= n | None => Sweep.js_journal s <= n end) /\
+  (forall m, Sweep.jkeep s (Sweep.FManifest, m) = true <-> m = Sweep.js_manifest s) /\
+  (forall n, Sweep.jkeep s (Sweep.FTemp, n) = false).
+Proof.
+  intros s. split; [|split; [|split]].
+  - exact (SweepProofs.jkeep_table s).
+  - exact (SweepProofs.jkeep_journal s).
+  - exact (SweepProofs.jkeep_manifest s).
+  - exact (SweepProofs.jkeep_temp s).
+Qed.
+Print Assumptions C07_sweep_keeps.
+
+(* 8. recoverJournal replays exactly the listed journals that its predicate selects (number >= stJournalNum or
+      = stPrevJournalNum), in increasing order, each once. *)
+Theorem C07_replay_choice : forall jn pj l, NoDup l ->
+  (forall n, In n (Sweep.rj_select jn pj l) <-> In (Sweep.FJournal, n) l /\ Sweep.jsel jn pj n = true) /\
+  SweepProofs.nsorted (Sweep.rj_select jn pj l) /\ NoDup (Sweep.rj_select jn pj l).
+Proof. exact SweepProofs.rj_select_spec. Qed.
+Print Assumptions C07_replay_choice.
+
+(* 9. "Needed by recovery" is what recovery reads.  The L2 persistence model's recover (Store/Crash.v, the
+      model of C04/C08) replays exactly the journals of a crash image that the predicate jsel selects under
+      the journal number its manifest replay yields (no prev-journal field: the Go field reads 0), and a
+      frozen journal the predicate does not select can be removed from the image without changing what
+      recover returns.  (Journal files are never numbered 0: the first file number goes to the manifest.) *)
+Theorem C07_needed_journals_are_what_recover_reads : forall img,
+  (forall j, In j (SweepProofs.crash_journals img) -> Crash.j_num j <> 0) ->
+  let '(jn, sq, tabs) := Crash.replay_man (Crash.i_man img) 0 0 [] in
+  Crash.recover_full img =
+    fold_left (fun st j => Crash.replay_journal (Crash.j_recs j) (fst st) (snd st))
+      (filter (fun j => Sweep.jsel jn 0 (Crash.j_num j)) (SweepProofs.crash_journals img)) (sq, tabs).
+Proof. exact SweepProofs.crash_recover_reads. Qed.
+Print Assumptions C07_needed_journals_are_what_recover_reads.
+
+Theorem C07_unselected_journal_irrelevant : forall live f man,
+  Crash.j_num f <> 0 ->
+  (let '(jn, _, _) := Crash.replay_man man 0 0 [] in Sweep.jsel jn 0 (Crash.j_num f) = false) ->
+  Crash.recover_full {| Crash.i_live := live; Crash.i_frozen := Some f; Crash.i_man := man |} =
+  Crash.recover_full {| Crash.i_live := live; Crash.i_frozen := None; Crash.i_man := man |}.
+Proof. exact SweepProofs.crash_unselected_irrelevant. Qed.
+Print Assumptions C07_unselected_journal_irrelevant.
+
+(* 10. No step ever removes a needed file.  For EVERY listing l a closed DB may be found with (no repetition),
+      every content v of its manifest that is well formed (the manifest's own number and its tables are below
+      its next file number), and EVERY sequence of steps of the model - Open on whatever is there (session.recover
+      under any of the possible views, recoverJournal with any number of tables flushed per journal,
+      checkAndCleanFiles, any Remove call failing), readers pinning versions and opening / closing tables through
+      the file cache in any order, journal rotation, flush and table compaction jobs (tOps.create, finish, drop,
+      commit ok / failed with nothing written / failed with the record possibly written, with or without manifest
+      rotation, the removal of the old manifest failing, revert with failing Removes, job abandoned while
+      committing), dropFrozenMem, transactions (commit attempts, discard incl. the repaired path: fresh manifest
+      first, tables kept if that fails), the loop's removals (enabled only for tables no reachable version holds:
+      theorem 5), Close - every storage.Remove call (successful or failing) hits a file that is, at the moment of
+      the call, NOT needed, where needed (Sweep.needed) means: a table of the current version, of a replaced
+      version a reader still holds, of any manifest content a later session.recover may compute (two after a
+      record whose write or sync failed), or held open by a reader through the file cache; a journal that
+      recoverJournal would replay under such a content (jsel; an empty frozen journal excepted); the manifest
+      such a content is read from.  The one exception is a journal FILE NUMBERED 0, which recoverJournal selects
+      only because an absent prev-journal field reads as 0 (it replays and removes it at the next Open). *)
+Theorem C07_never_remove_needed : forall l v ru ops s,
+  NoDup l -> SweepInv.view_wf v -> Sweep.run (Sweep.boot l v ru) ops = Some s ->
+  forall f b, In (f, b) (Sweep.trace s) -> b = false \/ f = (Sweep.FJournal, 0).
+Proof. exact SweepOpen.never_remove_needed. Qed.
+Print Assumptions C07_never_remove_needed.
+
+(* the guard of the loop's removals in the model is what theorem 5 proves of the loop: a table the loop removes
+   is in no version that can still be read *)
+Theorem C07_loop_removals_guard : forall p o ops, vl_disciplined o ops = true ->
+  exists st evs, vl_run o ops = VOk (st, evs) /\
+    forall ins, untick (map fst ins) = evs ->
+    forall pre suf, ins = pre ++ suf ->
+    exists s rm, run p pre = Ok (s, rm) /\
+      forall v f, In v (vl_live st) -> In f (flat (vr_levels v)) -> ~ In f rm.
+Proof. exact files_safe_end_to_end. Qed.
+Print Assumptions C07_loop_removals_guard.
+
+(* 11. One Open makes the listing exact, for EVERY prior listing and every state a DB can be closed in.  After
+      any step sequence that leaves the DB closed (also: never opened - an arbitrary listing), if the next Open
+      succeeds (it fails only when a Remove fails or a table of the manifest is missing) then every file of the
+      exact set - the tables of the version, the new journal, the new manifest - is on storage, and every file on
+      storage belongs to the exact set, or is a journal numbered above the new one; the latter needs a manifest
+      whose journal number is above its next file number. *)
+Theorem C07_open_exact : forall l v0 ru ops s v fl mbad bad,
+  NoDup l -> SweepInv.view_wf v0 -> Sweep.run (Sweep.boot l v0 ru) ops = Some s ->
+  Sweep.opened s = false -> In v (Sweep.views s) ->
+  let s' := Sweep.open_db v fl mbad bad s in
+  Sweep.opened s' = true ->
+  (forall f, In f (Sweep.exact_set s') -> In f (Sweep.files s')) /\
+  (forall f, In f (Sweep.files s') ->
+     In f (Sweep.exact_set s') \/
+     exists n, f = (Sweep.FJournal, n) /\ Sweep.journal s' < n /\ Sweep.v_next v < Sweep.v_jnum v).
+Proof.
+  intros l v0 ru ops s v fl mbad bad Hl Hv Hr Ho Hin.
+  pose proof (SweepOpen.run_Good ops _ _ (SweepOpen.boot_Good l v0 ru Hl Hv) Hr) as H.
+  unfold SweepInv.Good in H. rewrite Ho in H.
+  intros s' Ho'. destruct (proj2 (SweepOpen.open_db_spec v fl mbad bad s H Hin) Ho') as (E1&E2&_). split; assumption.
+Qed.
+Print Assumptions C07_open_exact.
+
+(* 12. No residue.  For every listing, every well-formed manifest content and EVERY sequence of steps (flush ok /
+      failed, compaction ok / failed / reverted / abandoned, transaction commit / discard / failed commit + discard,
+      manifest rotation with a failing Remove, frozen-journal drop, readers pinning versions and tables, Close and
+      Open in between, any Remove failing): at every quiescent point - the DB open, no job, no reader, nothing
+      left for the loop, no frozen buffer - the listing is the exact set (tables of the version, the journal, the
+      manifest) plus ONLY the files the ghost field [residue] names; each entry of the field carries its reason
+      (its Remove failed; a revert stopped at an earlier failing Remove; discard kept it because the fresh manifest
+      could not be written; its job ended while committing or the DB was closed before the loop got to it; a
+      journal numbered above the new one found by Open).  Together with theorem 11 (the next Open leaves exactly
+      the exact set): every file that is not needed is removed, at the latest by the next successful Open. *)
+Theorem C07_no_residue : forall l v ru ops s,
+  NoDup l -> SweepInv.view_wf v -> Sweep.run (Sweep.boot l v ru) ops = Some s -> Sweep.quiescent s = true ->
+  forall f, In f (Sweep.files s) <-> In f (Sweep.exact_set s) \/ In f (map fst (Sweep.residue s)).
+Proof. exact SweepFiles.no_residue. Qed.
+Print Assumptions C07_no_residue.
+
 (* Clauses of C07 that are NOT theorems here (full statements; they are evaluated by the property
    oracle of harness/cmd/c07 on the implementation over the checker-owned storage, see props/C07.json):
    - the API discipline vl_disciplined itself: that db.go / db_compaction.go / db_transaction.go /
      db_iter.go / db_snapshot.go only call the version layer in this way is read off the code and
-     exercised by the DB-level oracle, not proved (theorem 4 replaces the former unproved clause
-     session_emits_env_ok, which assumed the event protocol of the version layer).
-   - sweep_exact: after Open (recover + checkAndCleanFiles) and once background work settled, the
-     storage holds exactly the tables of the current version, the live journal, the manifest CURRENT
-     names (and CURRENT); a missing live table is reported as corruption.
-   - no_residue: a failed flush / compaction (also when the DB is closed meanwhile), a discarded
-     transaction and Recover leave no table file that the current version does not hold.
+     exercised by the DB-level oracle, not proved.
+   - that the manifest never names a missing table (Open never reports ErrMissingFiles after a clean run):
+     follows from theorem 10 for the tables the views name, given that they exist at the start; not stated.
+   - that the step machine's program order is the code's (e.g. dropFrozenMem only after the flush commit):
+     read off the code; the harness checks the order of the real calls in the op log (journal Remove only
+     after a commit that sets a higher journal number).
    - space_reclaimed: after deleting every key and a full-range compaction with no snapshot live, all
      levels are empty and no table bytes remain.
-   - deferred removal: a table file is removed only after the last open reader of it is closed
-     (through the file cache, property C17): no read is served from a removed file. *)
+   - deferred removal: the file cache is modelled by its contract only (a removal requested while readers
+     hold the table runs when the last one lets go); the cache itself is property C17. *)
 
 (* ---------- non-vacuity ---------- *)
 
@@ -263,3 +423,119 @@ Example C07_ex_vl_failed_switched :
   | VPanic _ => false
   end = true.
 Proof. split; vm_compute; reflexivity. Qed.
+
+(* ---------- non-vacuity of theorems 7-11 ---------- *)
+
+(* stray files of every type, numbered below, between, at and above the live numbers and the next file number
+   (say 23): the janitor keeps tables 5 and 9 (9 and 40 are in the version, 40 is above the next file number),
+   journal 21 and above, manifest 20 only *)
+Definition ex_jan_state : Sweep.jstate :=
+  {| Sweep.js_tabs := [5; 9; 40]; Sweep.js_manifest := 20; Sweep.js_journal := 21; Sweep.js_frozen := None |}.
+Definition ex_jan_listing : list Sweep.fd :=
+  [(Sweep.FManifest, 3); (Sweep.FManifest, 20); (Sweep.FManifest, 30);
+   (Sweep.FJournal, 0); (Sweep.FJournal, 19); (Sweep.FJournal, 21); (Sweep.FJournal, 25);
+   (Sweep.FTable, 5); (Sweep.FTable, 7); (Sweep.FTable, 9); (Sweep.FTable, 21); (Sweep.FTable, 40); (Sweep.FTable, 41);
+   (Sweep.FTemp, 4); (Sweep.FTemp, 50)].
+
+Example C07_ex_janitor :
+  Sweep.janitor ex_jan_state ex_jan_listing =
+  Sweep.JRemove [(Sweep.FManifest, 3); (Sweep.FManifest, 30); (Sweep.FJournal, 0); (Sweep.FJournal, 19);
+                 (Sweep.FTable, 7); (Sweep.FTable, 21); (Sweep.FTable, 41); (Sweep.FTemp, 4); (Sweep.FTemp, 50)].
+Proof. vm_compute. reflexivity. Qed.
+
+Example C07_ex_janitor_missing :
+  Sweep.janitor ex_jan_state (filter (fun f => negb (Sweep.fd_eqb f (Sweep.FTable, 9))) ex_jan_listing) = Sweep.JMissing [9].
+Proof. vm_compute. reflexivity. Qed.
+
+(* a failing Remove stops the loop: the files behind it stay for the next run *)
+Example C07_ex_janitor_failing :
+  match Sweep.janitor ex_jan_state ex_jan_listing with
+  | Sweep.JRemove rem =>
+      let '(calls, l', ok) := Sweep.rm_seq ex_jan_listing rem [(Sweep.FJournal, 19)] in
+      negb ok && (N.of_nat (length calls) =? 4) && Sweep.fmem l' (Sweep.FTable, 7) && negb (Sweep.fmem l' (Sweep.FManifest, 30))
+  | _ => false
+  end = true.
+Proof. vm_compute. reflexivity. Qed.
+
+(* a life of a DB: created, opened; a flush; a reader pins a version and a table; a second flush whose commit
+   rotates the manifest (the old manifest's Remove fails); a compaction whose first commit fails with the record
+   possibly written and whose retry succeeds; the loop removes the inputs, one of them only after the reader
+   lets go (its Remove fails); a transaction whose commit fails the same way and whose discard cannot write
+   the fresh manifest: the table is kept.  Then the DB is quiescent, every Remove call hit an unneeded file,
+   the listing is the exact set plus the five files the residue names, and the next Open - under either of the
+   two possible manifest contents - leaves exactly the exact set. *)
+Definition ex_life : list Sweep.op :=
+  [Sweep.OOpen 0 [] false []; Sweep.ORotate true false; Sweep.OBegin Sweep.KFlush []; Sweep.OCreate Sweep.KFlush true;
+   Sweep.OFinish Sweep.KFlush; Sweep.OCommit Sweep.KFlush false Sweep.COk true; Sweep.ODropFrozen false;
+   Sweep.OAcquire; Sweep.OPin 4;
+   Sweep.ORotate true false; Sweep.OBegin Sweep.KFlush []; Sweep.OCreate Sweep.KFlush true; Sweep.OFinish Sweep.KFlush;
+   Sweep.OCommit Sweep.KFlush true Sweep.COk false; Sweep.ODropFrozen true;
+   Sweep.OBegin Sweep.KComp [4; 6]; Sweep.OCreate Sweep.KComp true; Sweep.OFinish Sweep.KComp;
+   Sweep.OCreate Sweep.KComp true; Sweep.ODrop Sweep.KComp true;
+   Sweep.OCommit Sweep.KComp false Sweep.CFailDirty true; Sweep.OCommit Sweep.KComp false Sweep.COk true;
+   Sweep.OLoopRemove 6 true; Sweep.ORelease 0; Sweep.OLoopRemove 4 true; Sweep.OUnpin 4 false;
+   Sweep.OBegin Sweep.KTxn []; Sweep.OCreate Sweep.KTxn true; Sweep.OFinish Sweep.KTxn;
+   Sweep.OCommit Sweep.KTxn false Sweep.CFailDirty true; Sweep.ODiscard Sweep.CFailClean false []].
+
+Definition fds_sub (a b : list Sweep.fd) : bool := forallb (Sweep.fmem b) a.
+
+Example C07_ex_life :
+  match Sweep.run (Sweep.boot_new true) ex_life with
+  | Some s =>
+      Sweep.quiescent s
+      && forallb (fun x => negb (snd x)) (Sweep.trace s)
+      && (N.of_nat (length (Sweep.trace s)) =? 9)
+      && fds_sub (Sweep.files s) (Sweep.exact_set s ++ map fst (Sweep.residue s))
+      && fds_sub (Sweep.exact_set s ++ map fst (Sweep.residue s)) (Sweep.files s)
+      && (N.of_nat (length (Sweep.residue s)) =? 5)
+      && (N.of_nat (length (Sweep.views s)) =? 2)
+  | None => false
+  end = true.
+Proof. vm_compute. reflexivity. Qed.
+
+Example C07_ex_life_reopen :
+  forallb (fun vi =>
+    match Sweep.run (Sweep.boot_new true) (ex_life ++ [Sweep.OClose; Sweep.OOpen vi [] false []]) with
+    | Some s =>
+        Sweep.opened s && fds_sub (Sweep.files s) (Sweep.exact_set s) && fds_sub (Sweep.exact_set s) (Sweep.files s)
+        && forallb (fun x => negb (snd x)) (Sweep.trace s)
+    | None => false
+    end) [0%nat; 1%nat] = true.
+Proof. vm_compute. reflexivity. Qed.
+
+(* the exception of theorem 10 is reachable: a manifest of another implementation carries a prev-journal
+   number (7); a journal file numbered 0 is lying around; Open's first commit writes a manifest without the
+   field, from then on recoverJournal would select journal 0 - and the janitor removes it *)
+Example C07_ex_journal_zero :
+  match Sweep.run (Sweep.boot [(Sweep.FManifest, 3); (Sweep.FJournal, 0); (Sweep.FJournal, 7); (Sweep.FJournal, 9)]
+                     {| Sweep.v_tabs := []; Sweep.v_jnum := 9; Sweep.v_prev := Some 7; Sweep.v_next := 10; Sweep.v_man := 3 |} true)
+          [Sweep.OOpen 0 [0; 0] false []] with
+  | Some s => Sweep.opened s && existsb (fun x => Sweep.fd_eqb (fst x) (Sweep.FJournal, 0) && snd x) (Sweep.trace s)
+              && forallb (fun x => Sweep.fd_eqb (fst x) (Sweep.FJournal, 0) || negb (snd x)) (Sweep.trace s)
+  | None => false
+  end = true.
+Proof. vm_compute. reflexivity. Qed.
+
+(* the stray-journal clause of theorem 11 is reachable only with a manifest whose journal number (50) is above
+   its next file number (10): journal 30 is neither replayed nor removed *)
+Example C07_ex_stray_journal_above :
+  match Sweep.run (Sweep.boot [(Sweep.FManifest, 3); (Sweep.FJournal, 30)]
+                     {| Sweep.v_tabs := []; Sweep.v_jnum := 50; Sweep.v_prev := None; Sweep.v_next := 10; Sweep.v_man := 3 |} true)
+          [Sweep.OOpen 0 [] false []] with
+  | Some s => Sweep.opened s && Sweep.fmem (Sweep.files s) (Sweep.FJournal, 30) && (Sweep.journal s =? 10)
+  | None => false
+  end = true.
+Proof. vm_compute. reflexivity. Qed.
+
+(* L2 link: the frozen journal 4 is selected while the manifest says journal number 4, and no longer once it
+   says 5 *)
+Example C07_ex_recover_reads :
+  let live := {| Crash.j_num := 5; Crash.j_recs := [{| Crash.b_seq := 3; Crash.b_n := 1 |}]; Crash.j_synced := 1 |} in
+  let fz := {| Crash.j_num := 4; Crash.j_recs := [{| Crash.b_seq := 1; Crash.b_n := 2 |}]; Crash.j_synced := 1 |} in
+  let m4 := [{| Crash.m_jnum := Some 4; Crash.m_seq := Some 0; Crash.m_tab := [] |}] in
+  let m5 := m4 ++ [{| Crash.m_jnum := Some 5; Crash.m_seq := Some 2; Crash.m_tab := [{| Crash.b_seq := 1; Crash.b_n := 2 |}] |}] in
+  N.of_nat (length (Crash.recover {| Crash.i_live := live; Crash.i_frozen := Some fz; Crash.i_man := m4 |})) = 2 /\
+  N.of_nat (length (Crash.recover {| Crash.i_live := live; Crash.i_frozen := None; Crash.i_man := m4 |})) = 1 /\
+  Crash.recover {| Crash.i_live := live; Crash.i_frozen := Some fz; Crash.i_man := m5 |} =
+  Crash.recover {| Crash.i_live := live; Crash.i_frozen := None; Crash.i_man := m5 |}.
+Proof. vm_compute. repeat split; reflexivity. Qed.
